@@ -4,8 +4,9 @@ CONFIG = {
     "technique": "Lean 4 proof over a decision-sequence model + verdict correspondence and spec-on-implementation with the Go verification functions + regenerated check tables (go/ast)",
     "models": ["stateless"],
     "lean_sources": ["OasisModel/Stateless", "OasisModel/Proto.lean", "OasisProofs/Helpers/StatelessMerkle.lean"],
-    "extra_theorem_files": [{"file": "OasisProofs/Props/C19Cache.lean", "namespace": "OasisProofs.C19Cache"}],
+    "extra_theorem_files": [{"file": "OasisProofs/Props/C19Cache.lean", "namespace": "OasisProofs.C19Cache"}, {"file": "OasisProofs/Props/C19StoreFacts.lean", "namespace": "OasisProofs.C19StoreFacts"}],
     "regen": [
+        {"kind": "stmtfacts", "out": "StmtFactsLightstore.lean", "args": ["lightstore"]},
         {"kind": "statelessfacts", "out": "StatelessFacts.lean"},
     ],
     "generated_obligations": 0,
